@@ -19,11 +19,12 @@ Environment variables control the behavior of these functions:
 
 import os
 
-from jaqalpaq.error import JaqalError
+from jaqalpaq.error import JaqalError, nesting_guard
 from jaqalpaq.parser import parse_jaqal_file, parse_jaqal_string
 from jaqalpaq.core.algorithm import expand_macros, fill_in_let, expand_subcircuits
 
 
+@nesting_guard
 def run_jaqal_circuit(circuit, backend=None, force_sim=False, emulator_backend=None):
     """Execute a Jaqal :class:`~jaqalpaq.core.Circuit` using either an
     emulator or by communicating over IPC with another process.
